@@ -745,9 +745,10 @@ func forEachConfig(thorough bool, emit func(k kase)) {
 		engines = append(engines, eng{m, "conf", ""})
 	}
 	for _, src := range []string{"ctl1", "ctl5"} {
-		for _, m := range modes {
-			for _, b := range modes {
-				if b != m {
+		for mi, m := range modes {
+			for bi, b := range modes {
+				// quick: each mode is switched to from one other configured mode, thorough: from both
+				if b != m && (thorough || bi == (mi+1)%len(modes)) {
 					engines = append(engines, eng{m, src, b})
 				}
 			}
